@@ -1,19 +1,23 @@
 """C12 — a failed load leaves the target untouched.
 
-(a) tools/translate_loads.py abstracts every load function named by the property, from the clang
-    AST of the current tree, to a term of `Vita.C12.Stmt` (lean/Vita/C12/GenLoads.lean); Lean
-    proves `commit_last_sound` once and closes the extracted table by `decide`
-    (`table_commit_last`, `loads_fail_untouched`).
-(b) Vita/C12/Model.lean models each load as a transformer of the target (writes where the C++
-    writes), sharing the parsers of C11; `X_fail_untouched`, `X_ok_iff`.
+(a) tools/translate_flow.py abstracts every load function named by the property, the stream constructors of the
+    models, serialize::lambda::load and (documented "could be changed") cache::load / evaluator_proxy::load, from the
+    clang AST of the current tree, to data-flow programs (`Vita.C12.Flow.Stmt`, lean/Vita/C12/GenFlow.lean): which
+    locals each extraction writes, which members each statement assigns, which nested loads run on which object,
+    which check guards what, how failure is reported.  Lean proves the frame / clean / kinds invariants once
+    (Flow.lean) and closes the regenerated table by `decide` (`flow_commit_last`, `flow_all_checked`,
+    `flow_kinds_ok`; `loads_fail_untouched`, `failed_read_is_reported`, `failure_is_documented`).
+(b) Vita/C12/Model.lean models each load as a transformer of the target (writes where the C++ writes), sharing
+    the parsers of C11; `X_fail_untouched`, `X_ok_iff`.
 
-Tie (every run): valid serializations produced by the C11 generator are truncated at every byte
-offset and damaged token by token (deletion, same-length numeric substitution, sign flip,
-non-numeric token); each damaged stream is fed to the REAL load on a target holding unrelated
-valid content under ASan/UBSan.  Own oracle: deep snapshot of the target before/after.  Damaged model
-files go through serialize::lambda::load (stream constructors): the only documented outcomes are a
-model, nullptr and exception::data_format; a loaded model is saved again and compared with the Lean
-model's load-then-save.  The
+Tie (every run): valid serializations produced by the C11 generator are truncated at every byte offset and
+damaged token by token (see "the damage model" below); each damaged stream is fed to the REAL load under
+ASan/UBSan on a target built by a history that populates every member (harness/c12_targets.h).  Own oracle: a
+snapshot of EVERY data member of the target before / after (member list generated from the clang AST by
+tools/c12_members.py; a member that is not snapshotted, or that no target of the run populates, is a failure of
+the check) + the observers (description, raw cached signatures, is_valid()).  Damaged model files go through
+serialize::lambda::load (stream constructors): the only documented outcomes are a model, nullptr and
+exception::data_format; a loaded model is saved again and compared with the Lean model's load-then-save.  The
 success/failure verdict and, on success, the loaded object are compared with the model's.
 """
 import concurrent.futures as cf
@@ -26,34 +30,50 @@ from vlib import common as C
 from checks import c11 as K11
 
 sys.path.insert(0, os.path.join(C.ROOT, "tools"))
-import translate_loads  # noqa: E402
+import translate_flow  # noqa: E402
+import c12_members  # noqa: E402
+import c12_ast  # noqa: E402
 from cxx2lean import Refuse  # noqa: E402
 
-TYPES = list(K11.SIMPLE) + ["imep", "team", "pop", "summ", "lam"]
+TYPES = list(K11.SIMPLE) + ["imep", "team", "pop", "summ", "lam", "cachet"]
+# `cachet`: cache::load on a populated cache.  Not in the property's list (evaluator_proxy::load documents "could be
+# changed"): the flow analysis proves that a failing cache::load can only have modified `table_`
+# (`weak_loads_dirty`), and that is what is checked here; verdicts are compared with the model's.
+SOURCE_TYPE = {"cachet": "cache"}
+WEAK_MAY_CHANGE = {"cachet": "vita::cache::table_"}
 # objects per type, max stream length for exhaustive prefixes, token mutations per object: (quick, thorough)
 BUDGET = {
-    "hash": ((100, 600, 120), (800, 6000, 1000)),
-    "fit": ((200, 600, 120), (1600, 6000, 1000)),
-    "iga": ((150, 600, 120), (1200, 6000, 1000)),
-    "ide": ((150, 600, 120), (1200, 6000, 1000)),
-    "mati": ((100, 600, 120), (800, 6000, 1000)),
-    "matu": ((100, 600, 120), (800, 6000, 1000)),
-    "dist": ((100, 600, 160), (800, 6000, 1000)),
-    "imep": ((150, 600, 160), (1200, 6000, 1000)),
-    "team": ((40, 600, 160), (300, 6000, 1000)),
-    "pop": ((40, 600, 200), (300, 6000, 1200)),
-    "summ": ((80, 600, 160), (600, 6000, 1000)),
-    "lam": ((60, 600, 200), (480, 6000, 1200)),
+    "hash": ((100, 600, 120), (570, 6000, 600)),
+    "fit": ((200, 600, 120), (1150, 6000, 600)),
+    "iga": ((150, 600, 120), (860, 6000, 600)),
+    "ide": ((150, 600, 120), (860, 6000, 600)),
+    "mati": ((100, 600, 120), (570, 6000, 600)),
+    "matu": ((100, 600, 120), (570, 6000, 600)),
+    "dist": ((100, 600, 160), (570, 6000, 600)),
+    "imep": ((150, 600, 160), (860, 6000, 600)),
+    "team": ((40, 600, 160), (210, 6000, 600)),
+    "pop": ((40, 600, 200), (210, 6000, 700)),
+    "summ": ((80, 600, 160), (430, 6000, 600)),
+    "lam": ((60, 600, 200), (340, 6000, 700)),
+    "cachet": ((60, 400, 120), (340, 4000, 600)),
 }
 FAILISH = ("fail", "exc:bad_alloc", "exc:length_error", "null", "exc:data_format")
 
 
+def tools_key():
+    """everything the generated files depend on beside the vita sources"""
+    txt = ""
+    for f in ("translate_flow.py", "translate_loads.py", "c12_members.py", "c12_ast.py", "cxx2lean.py",
+              os.path.join("tu", c12_ast.TU)):
+        txt += open(os.path.join(C.ROOT, "tools", f)).read()
+    return C.repo_tree_hash(txt)
+
+
 def regen(chk, broken):
-    """GenLoads.lean from the current tree (cached by source hash)."""
-    gen = os.path.join(C.LEAN, "Vita", "C12", "GenLoads.lean")
+    """GenFlow.lean from the current tree (cached by source hash)."""
+    gen = os.path.join(C.LEAN, "Vita", "C12", "GenFlow.lean")
     stamp = os.path.join(C.BUILD, "c12_gen.stamp")
-    key = C.repo_tree_hash(open(translate_loads.__file__).read() +
-                           open(os.path.join(C.ROOT, "tools", "tu", "loads_tu.cc")).read())
+    key = tools_key()
     os.makedirs(C.BUILD, exist_ok=True)
     try:
         if os.path.exists(stamp) and os.path.exists(gen):
@@ -62,23 +82,208 @@ def regen(chk, broken):
                 chk.cov["translated"] = translate_loads_names(gen)
                 chk.cov["gen_cached"] = True
                 return True
-        names, changed = translate_loads.emit(gen)
+        names, changed = translate_flow.emit(gen)
         chk.cov["translated"] = names
         chk.cov["gen_changed_vs_committed"] = bool(changed)
         with open(stamp, "w") as f:
             f.write(key + "\n" + open(gen).read())
         return True
     except Refuse as e:
-        broken.append("translator tools/translate_loads.py refuses the current load functions: %s" % e)
+        broken.append("translator tools/translate_flow.py refuses the current load functions / stream "
+                      "constructors: %s" % e)
         return False
+
+
+def regen_members(chk, broken):
+    """harness/c12_members_gen.h + the member table from the current tree (cached by source hash)."""
+    hdr = os.path.join(C.ROOT, "harness", "c12_members_gen.h")
+    stamp = os.path.join(C.BUILD, "c12_members.stamp")
+    key = tools_key()
+    os.makedirs(C.BUILD, exist_ok=True)
+    try:
+        if os.path.exists(stamp) and os.path.exists(hdr):
+            old = json.load(open(stamp))
+            if old.get("key") == key and old.get("header") == open(hdr).read():
+                return old["table"]
+        table, changed = c12_members.emit(hdr)
+        chk.cov["members_header_changed_vs_committed"] = bool(changed)
+        with open(stamp, "w") as f:
+            json.dump({"key": key, "header": open(hdr).read(), "table": table}, f)
+        return table
+    except Refuse as e:
+        broken.append("tools/c12_members.py cannot enumerate the data members of the load targets: %s" % e)
+        return None
 
 
 def translate_loads_names(gen):
     return re.findall(r'^\s+"(vita::[^"]+)"', open(gen).read(), re.M)
 
 
-def mutations(rng, data, max_exh, n_tok):
-    """[(kind, bytes)] for one valid serialization."""
+# ---- the damage model ---------------------------------------------------------------------------------
+# The property quantifies over every prefix and every single-token substitution / deletion that keeps numbers
+# within their digit count.  Per valid serialization:
+#   prefix            every byte offset (all up to the tier's bound, sampled beyond)
+# and per token (all tokens of short streams; sampled otherwise, but the STRUCTURAL tokens of the record -
+# counts, sizes, layer headers, ages, starting locus - are always damaged, and so is a sample of opcodes):
+#   delete            the token is removed
+#   word              replaced by a non-numeric word
+#   digits            same digit count, 1-3 digits changed        zeros / nines   all digits 0 / 9 (count 0, huge)
+#   sign / plus       a '-' added or removed / a '+' added
+#   swap              exchanged with the NEXT token (adjacent fields, often of different type)
+#   donor:same        replaced by another token of the same record (a float where an integer is expected …)
+#   donor:other       replaced by a token of ANOTHER object of the same type
+#   opcode:*          (streams of programs) the opcode of another VALID symbol: other arity (the rest of the
+#                     record is misaligned), parametric / non parametric, other category, same shape, unknown
+
+
+def tokens_of(data):
+    return [(m.start(), m.end()) for m in re.finditer(rb"\S+", data)]
+
+
+def parse_symtab(ctx):
+    """'nsym (opcode hasPar arity)*' -> {opcode: (hasPar, arity)}"""
+    t = [int(x) for x in ctx.split()] if ctx else []
+    if not t:
+        return {}
+    return {t[1 + 3 * i]: (t[2 + 3 * i], t[3 + 3 * i]) for i in range(t[0])}
+
+
+class Roles:
+    """roles of the tokens of a valid serialization (best effort: anything that does not parse stays '?')"""
+
+    def __init__(self, data, toks, symtab):
+        self.data, self.toks, self.symtab = data, toks, symtab
+        self.role = ["?"] * len(toks)
+        self.i = 0
+
+    def val(self, i):
+        try:
+            return int(self.data[self.toks[i][0]:self.toks[i][1]])
+        except (ValueError, IndexError):
+            return None
+
+    def take(self, role):
+        if self.i >= len(self.toks):
+            raise IndexError
+        self.role[self.i] = role
+        v = self.val(self.i)
+        self.i += 1
+        return v
+
+    def imep(self):
+        self.take("age")
+        rows = self.take("rows")
+        cols = self.take("cols")
+        for _ in range((rows or 0) * (cols or 0)):
+            op = self.take("opcode")
+            hp, ar = self.symtab.get(op, (0, 0))
+            if hp:
+                self.take("par")
+            for _ in range(ar):
+                self.take("arg")
+        if rows:
+            self.take("best_index")
+            self.take("best_category")
+
+    def team(self):
+        n = self.take("count")
+        for _ in range(n or 0):
+            self.imep()
+
+    def pop(self):
+        nl = self.take("layers")
+        for _ in range(nl or 0):
+            self.take("allowed")
+            ne = self.take("nelem")
+            for _ in range(ne or 0):
+                self.imep()
+
+    def summ(self):
+        known = self.take("known")
+        if known:
+            self.imep()
+            # the fitness is the rest of a line, then the accuracy: recognised from the END of the record
+        n = len(self.toks)
+        for k, r in enumerate(("elapsed", "mutations", "crossovers", "gen", "last_imp")):
+            if n - 5 + k >= self.i:
+                self.role[n - 5 + k] = r
+        if known and n - 6 >= self.i:
+            self.role[n - 6] = "accuracy"
+            for j in range(self.i, n - 6):
+                self.role[j] = "fitness"
+
+
+def roles_of(typ, data, toks, symtab):
+    r = Roles(data, toks, symtab)
+    try:
+        {"imep": r.imep, "team": r.team, "pop": r.pop, "summ": r.summ}[typ]()
+    except (IndexError, KeyError, TypeError):
+        pass
+    return r.role
+
+
+STRUCTURAL = {"rows", "cols", "count", "layers", "allowed", "nelem", "best_index", "best_category", "known", "age",
+              "accuracy", "elapsed", "mutations", "crossovers", "gen", "last_imp"}
+
+
+def opcode_substitutes(op, symtab, cats):
+    """[(kind, opcode)]: a VALID opcode of another symbol, by what differs"""
+    out = {}
+    hp, ar = symtab.get(op, (0, 0))
+    for o, (h2, a2) in sorted(symtab.items()):
+        if o == op:
+            continue
+        if a2 != ar:
+            out.setdefault("opcode:other-arity", o)
+        if h2 != hp:
+            out.setdefault("opcode:other-parametric", o)
+        if cats and cats.get(o) != cats.get(op):
+            out.setdefault("opcode:other-category", o)
+        if a2 == ar and h2 == hp:
+            out.setdefault("opcode:same-shape", o)
+    out["opcode:unknown"] = max(symtab) + 1 if symtab else 99
+    return sorted(out.items())
+
+
+def token_damage(rng, data, toks, ti, donor):
+    """[(kind, bytes)]: every single-token damage of token `ti`"""
+    out = []
+    a, b = toks[ti]
+    tok = data[a:b]
+
+    def put(kind, new):
+        if new != tok:
+            out.append((kind, data[:a] + new + data[b:]))
+    out.append(("delete", data[:a] + data[b:]))
+    put("word", b"x")
+    t2 = bytearray(tok)
+    dig = [i for i, c in enumerate(t2) if 48 <= c <= 57]
+    if dig:
+        for _ in range(1 + rng.below(3)):
+            i = dig[rng.below(len(dig))]
+            t2[i] = 48 + rng.below(10)
+        put("digits", bytes(t2))
+        put("zeros", bytes(48 if 48 <= c <= 57 else c for c in tok))
+        put("nines", bytes(57 if 48 <= c <= 57 else c for c in tok))      # the largest value with this digit count
+    if tok[:1] == b"-":
+        put("sign", tok[1:])
+    elif tok[:1].isdigit():
+        put("sign", b"-" + tok)
+        put("plus", b"+" + tok)
+    if ti + 1 < len(toks):
+        c, d = toks[ti + 1]
+        if data[c:d] != tok:
+            out.append(("swap", data[:a] + data[c:d] + data[b:c] + tok + data[d:]))
+    if len(toks) > 1:
+        c, d = toks[rng.below(len(toks))]
+        put("donor:same", data[c:d])
+    if donor:
+        put("donor:other", donor[rng.below(len(donor))])
+    return out
+
+
+def mutations(rng, data, max_exh, n_tok, typ="", symtab=None, cats=None, donor=None):
+    """[(kind, bytes, role)] for one valid serialization."""
     out = []
     L = len(data)
     if L <= max_exh:
@@ -86,30 +291,34 @@ def mutations(rng, data, max_exh, n_tok):
     else:
         offs = sorted({rng.below(L) for _ in range(max_exh)} | {0, 1, L - 1, L - 2})
     for k in offs:
-        out.append(("prefix", data[:k]))
-    toks = [(m.start(), m.end()) for m in re.finditer(rb"\S+", data)]
-    if toks:
-        picks = range(len(toks)) if len(toks) * 4 <= n_tok else [rng.below(len(toks)) for _ in range(n_tok // 4)]
-        for ti in picks:
+        out.append(("prefix", data[:k], "-"))
+    toks = tokens_of(data)
+    if not toks:
+        return out
+    roles = roles_of(typ, data, toks, symtab or {}) if typ in ("imep", "team", "pop", "summ") else ["?"] * len(toks)
+    per = 9                                     # about that many damaged streams per token
+    if len(toks) * per <= 2 * n_tok:
+        picks = list(range(len(toks)))
+    else:
+        structural = [i for i, r in enumerate(roles) if r in STRUCTURAL]
+        top = structural[:6] + structural[-4:]                       # the record's own header and trailer
+        rest = [i for i in structural if i not in top]
+        nested = [rest[rng.below(len(rest))] for _ in range(min(len(rest), n_tok // (2 * per)))] if rest else []
+        rnd = [rng.below(len(toks)) for _ in range(n_tok // per)]
+        picks = sorted(set(top + nested + rnd))
+    for ti in picks:
+        for kind, bts in token_damage(rng, data, toks, ti, donor):
+            out.append((kind, bts, roles[ti]))
+    ops = [i for i, r in enumerate(roles) if r == "opcode"]
+    if ops and symtab:
+        for ti in sorted({ops[rng.below(len(ops))] for _ in range(max(1, n_tok // 40))}):
             a, b = toks[ti]
-            tok = data[a:b]
-            out.append(("delete", data[:a] + data[b:]))
-            out.append(("word", data[:a] + b"x" + data[b:]))
-            # same digit count, other digits
-            t2 = bytearray(tok)
-            dig = [i for i, c in enumerate(t2) if 48 <= c <= 57]
-            if dig:
-                for _ in range(1 + rng.below(3)):
-                    i = dig[rng.below(len(dig))]
-                    t2[i] = 48 + rng.below(10)
-                if rng.below(3) == 0:
-                    for i in dig:
-                        t2[i] = 57          # all nines: the largest value with this digit count
-                out.append(("digits", data[:a] + bytes(t2) + data[b:]))
-            if tok[:1] == b"-":
-                out.append(("sign", data[:a] + tok[1:] + data[b:]))
-            elif tok[:1].isdigit():
-                out.append(("sign", data[:a] + b"-" + tok + data[b:]))
+            try:
+                op = int(data[a:b])
+            except ValueError:
+                continue
+            for kind, o in opcode_substitutes(op, symtab, cats):
+                out.append((kind, data[:a] + str(o).encode() + data[b:], "opcode"))
     return out
 
 
@@ -120,7 +329,33 @@ def hexs(b):
 def run(chk, replay=None):
     rng = C.SplitMix(chk.seed)
     broken = []
-    gen_ok = regen(chk, broken)
+    import time
+    phase = {}
+    tp = [time.time()]
+
+    def lap(name):
+        now = time.time()
+        phase[name] = round(phase.get(name, 0) + now - tp[0], 1)
+        tp[0] = now
+    chk.cov["phase_s"] = phase
+    # the two generators share the clang dumps; libvita + the C11 generator harness build meanwhile
+    pool = cf.ThreadPoolExecutor(4)
+    f_gen = pool.submit(regen, chk, broken)
+    f_mem = pool.submit(regen_members, chk, broken)
+    C.build_vita("asan")
+    lap("libvita")
+    f_ser = pool.submit(K11.build_harness)
+    table = f_mem.result()
+    lap("member-table")
+
+    def build_exe():
+        try:
+            return C.build_harness("c12_load", "asan", extra_flags=["-DVERIF_INC=" + K11.inc_hash()]), None
+        except RuntimeError as e:
+            return None, str(e)
+    f_exe = pool.submit(build_exe)       # (needs the generated member header)
+    gen_ok = f_gen.result()
+    lap("flow-table")
     drv_ok = False
     if gen_ok:
         ok, msg = chk.prove("Vita.C12.Props", ["Vita.C12.Props", "c12_driver"])
@@ -130,13 +365,59 @@ def run(chk, replay=None):
     drv_ok = okd
     if not okd:
         broken.append("c12_driver does not build: " + C.lean_errors(out))
+    elif gen_ok:
+        # what the obligations say about each entry of the regenerated table (names the function and the members)
+        rcf, sof, _ = C.sh([C.driver_path("c12_driver"), "flow"], timeout=120)
+        bad_entries = []
+        for ln in sof.splitlines():
+            f = [x.strip() for x in ln.split("|")]
+            if len(f) < 6:
+                continue
+            kind = f[2].rsplit(".", 1)[-1]
+            dirty = f[3].split(":", 1)[1].strip()
+            chk.count("flow_entry:" + kind)
+            why = []
+            if kind == "load" and dirty != "[]":
+                why.append("may have modified " + dirty + " when it fails (not commit-last)")
+            if f[4].endswith("false"):
+                why.append("has an extraction from the stream or a nested load whose failure nobody checks")
+            if f[5].endswith("false"):
+                why.append("can report failure in an undocumented way")
+            if why:
+                bad_entries.append(f[1] + " " + "; ".join(why))
+        chk.cov["flow_report"] = sof.splitlines()[:60]
+        if bad_entries and broken:
+            broken[-1] = "data-flow obligations of the regenerated table fail: " + " || ".join(bad_entries) + \
+                " || " + broken[-1][:600]
 
-    ser = K11.build_harness()
-    exe = C.build_harness("c12_load", "asan", extra_flags=["-DVERIF_INC=" + K11.inc_hash()])
+    lap("lean")
+    ser = f_ser.result()
+    exe, exe_err = f_exe.result()
+    pool.shutdown()
+    lap("harnesses")
+    if exe is None:
+        # typically: a data member of a load target whose type has no snapshot rule
+        msg = exe_err
+        m = re.search(r"[^\n]*(no snapshot rule|not enumerated|hashed container)[^\n]*", msg)
+        ty = re.findall(r"value\(const T&\) \[with T = ([^\]\n]+)\]", msg)
+        chk.violation("harness c12_load does not compile against the current tree: the deep snapshot cannot cover "
+                      "every data member of the load targets: " + (m.group(0).strip() if m else msg[-1500:]) +
+                      (" — member type(s) on the way: " + " <- ".join(ty[:4]) if ty else ""),
+                      {"broken": "deep snapshot (harness/c12_snap.h + generated c12_members_gen.h)",
+                       "compiler": msg[-3000:]}, no_input=True)
+        return chk.finish(level="proof", checker_cmd="g++ harness/c12_load.cc", rule="(harness does not build)",
+                          trusted=[])
+    try:
+        a_, _d = C.run_lines(exe, ["symcats"], timeout=300)
+        state_cats = {int(x.split(":")[0]): int(x.split(":")[1]) for x in a_[0].split()[1:]} if a_ else {}
+    except (ValueError, IndexError):
+        state_cats = {}
+    member_stats = {}      # (tag, rec, fld) -> [visits, nonzero]
+    features = {}
     tier_i = 0 if chk.tier == "quick" else 1
 
     # ---- requests, one batch per type (bounded memory in the thorough tier) ----------------------
-    state = {"ndis": 0, "requests": 0}
+    state = {"ndis": 0, "requests": 0, "cats": state_cats}
     batches = []       # lists of (type, kind, tseed, hex, source, ctx)
     if replay:
         r = json.load(open(replay))["replay"]
@@ -160,17 +441,25 @@ def run(chk, replay=None):
         """yields lists of requests, about CHUNK at a time"""
         reqs = []
         nobj, max_exh, n_tok = BUDGET[typ][tier_i]
-        rc, objs, se = K11.gen_objects(ser, chk.seed, nobj, typ)
+        state["donor"] = None
+        rc, objs, se = K11.gen_objects(ser, chk.seed, nobj, SOURCE_TYPE.get(typ, typ))
+        lap("gen_objects")
         for i, o in enumerate(objs):
             if o["verdict"] != "ok" or o["hex"] == "-":
                 continue      # only *valid* serializations are damaged (C11 reports the others)
             data = bytes.fromhex(o["hex"])
             chk.count("source_objects:" + typ)
-            # models: no target, the second field selects the problem (symbol set) of the model
-            tsf = (lambda: o["tags"].get("prob", 0)) if typ == "lam" else (lambda: rng.next() % 1000003)
+            symtab = parse_symtab(o.get("ctx", "")) if typ in K11.NEEDS_CTX else None
+            # models: no target, the second field selects the problem (symbol set) of the model; otherwise the seed
+            # of the target's history: a few targets per source object (the harness keeps the last ones built)
+            tbase = rng.next() % 1000003
+            tsf = (lambda: o["tags"].get("prob", 0)) if typ == "lam" else (lambda: tbase + rng.below(6))
             reqs.append((typ, "intact", tsf(), o["hex"], i, o.get("ctx", "")))
-            for kind, b in mutations(rng, data, max_exh, n_tok):
+            for kind, b, role in mutations(rng, data, max_exh, n_tok, typ, symtab, state.get("cats"), state.get("donor")):
                 reqs.append((typ, kind, tsf(), hexs(b), i, o.get("ctx", "")))
+                if role not in ("-", "?"):
+                    chk.count(f"role:{role}:{kind}")
+            state["donor"] = [data[a:b] for a, b in tokens_of(data)][:400] or state.get("donor")
             if len(reqs) >= CHUNK:
                 yield reqs
                 reqs = []
@@ -188,6 +477,8 @@ def run(chk, replay=None):
                 _, ol, _ = K11.gen_objects(ser, 1, 60, "lam")
                 tabs["lam"] = {o["tags"].get("prob"): o["ctx"] for o in ol}
             return tabs["lam"].get(ts, "")
+        if t == "cachet":
+            return "4"          # bits of the model's fresh cache: the verdict does not depend on them
         if t in K11.NEEDS_CTX:
             if "sym" not in tabs:
                 _, o1, _ = K11.gen_objects(ser, 1, 1, "imep")
@@ -199,11 +490,15 @@ def run(chk, replay=None):
         lines = [f"ld {t} {ts} {hx}" for t, _, ts, hx, _, _ in reqs]
         state["requests"] += len(lines)
         shards = max(1, min(8, len(lines) // 3000))
-        mlines = [(f"resave lam {r[3]} {ctx_of(r)}" if r[0] == "lam" else f"load {r[0]} {r[3]} {ctx_of(r)}")
-                  for r in reqs]
+        mlines = [(f"resave lam {r[3]} {ctx_of(r)}" if r[0] == "lam" else
+                   f"load {SOURCE_TYPE.get(r[0], r[0])} {r[3]} {ctx_of(r)}") for r in reqs]
 
         def cpp(idx):
-            return C.run_lines(exe, lines[idx::shards], timeout=3000)
+            a, deaths = C.run_lines(exe, lines[idx::shards] + ["stats"], timeout=3000)
+            n = len(lines[idx::shards])
+            st = a[n] if len(a) > n and a[n].startswith("stats ") else None
+            # a death reported on the trailing `stats` line (e.g. a leak report at exit) belongs to the run
+            return a[:n], [(min(j, n - 1), rcode, se) for j, rcode, se in deaths], st
 
         def model(idx):
             return C.run_driver("c12_driver", mlines[idx::shards]) if drv_ok else None
@@ -212,11 +507,14 @@ def run(chk, replay=None):
             fc = [ex.submit(cpp, i) for i in range(shards)]
             fm = [ex.submit(model, i) for i in range(shards)]
             rc_ = [f.result() for f in fc]
+            lap("cpp(+model)")
             rm_ = [f.result() for f in fm]
+            lap("model-tail")
         cpp_ans = [None] * len(lines)
         mod_ans = [None] * len(lines)
         for i in range(shards):
-            a, deaths = rc_[i]
+            a, deaths, st = rc_[i]
+            absorb_stats(st)
             for j, v in enumerate(a):
                 cpp_ans[i + j * shards] = v
             for j, rcode, se in deaths:
@@ -225,12 +523,35 @@ def run(chk, replay=None):
                 for j, v in enumerate(rm_[i]):
                     mod_ans[i + j * shards] = v
         compare(reqs, lines, cpp_ans, mod_ans)
+        lap("compare")
+
+    def absorb_stats(st):
+        if not st or not st.startswith("stats "):
+            return
+        head, mem, feat = (st.split("|") + ["", ""])[:3]
+        if table is not None and head.split()[1] != table["digest"]:
+            if not any("member table" in b for b in broken):
+                broken.append("the member table compiled into harness c12_load (%s) is not the one generated from "
+                              "the current tree (%s)" % (head.split()[1], table["digest"]))
+            return
+        for kv in mem.split():
+            k, v = kv.split("=")
+            tag, rf = k.split(":")
+            r, f = rf.split(".")
+            a, b = v.split("/")
+            e = member_stats.setdefault((tag, int(r), int(f)), [0, 0])
+            e[0] += int(a)
+            e[1] += int(b)
+        for kv in feat.split():
+            k, v = kv.rsplit("=", 1)
+            features[k] = features.get(k, 0) + int(v)
 
     def compare(reqs, lines, cpp_ans, mod_ans):
         for g, (typ, kind, ts, hx, src, _c) in enumerate(reqs):
             ca = cpp_ans[g] or "skipped"
             chk.seen((typ, hx), nontrivial=True)
             chk.count(f"{typ}:{kind}")
+            chk.count("damage:" + kind)
             rep = {"line": lines[g], "mutation": kind, "bytes": bytes.fromhex(hx).decode("latin1")[:600] if hx != "-" else ""}
             tags = {"type": typ, "mutation": kind}
             if ca.startswith("died"):
@@ -240,12 +561,21 @@ def run(chk, replay=None):
                 continue
             if ca == "skipped":
                 continue
+            where = ""
+            if " ## " in ca:
+                ca, where = ca.split(" ## ", 1)
+                where = where.strip()
             c = ca.split()
             verdict, same, after = c[0], c[1], " ".join(c[2:])
             chk.count("cpp:" + verdict)
-            if verdict != "ok" and same != "same":
+            if verdict != "ok" and same != "same" and typ in WEAK_MAY_CHANGE and \
+                    where.split(" -> ")[0] == WEAK_MAY_CHANGE[typ]:
+                # documented "could be changed", and only in the member the flow analysis allows
+                chk.count(f"{typ}:failed-load-changed-{WEAK_MAY_CHANGE[typ]}")
+            elif verdict != "ok" and same != "same":
                 chk.violation(f"{typ}::load reported failure ({verdict}) on a damaged stream ({kind}) but the target "
-                              f"changed; target after = {after[:300]}", dict(rep, cpp=ca[:600]),
+                              f"changed (first difference of the member-by-member snapshot: {where or '?'}); "
+                              f"target after = {after[:300]}", dict(rep, cpp=ca[:600], changed_member=where),
                               tags=dict(tags, outcome="changed"))
             if verdict.startswith("exc:") and verdict not in FAILISH:
                 chk.violation(f"{typ}::load let an exception escape ({verdict}) on a damaged stream ({kind})",
@@ -259,7 +589,7 @@ def run(chk, replay=None):
                 m_ok = ma.startswith("ok ")
                 c_ok = verdict == "ok"
                 agree = (m_ok == c_ok)
-                if agree and m_ok:
+                if agree and m_ok and typ not in WEAK_MAY_CHANGE:
                     # plain types: the loaded object; models: the bytes of the reloaded model saved again
                     agree = ma[3:].split(" | ")[0].strip() == after.strip()
                 if not agree:
@@ -277,6 +607,30 @@ def run(chk, replay=None):
                 process(chunk)
         else:
             process(bt)
+    # ---- the snapshot must have covered, and some target populated, EVERY data member -----------------
+    if table is not None and not replay:
+        cover = {}
+        for tag, recs in table["roots"].items():
+            if tag not in TYPES:
+                continue
+            for r in recs:
+                rec = table["records"][r]
+                for f, fname in enumerate(rec["fields"]):
+                    v, nz = member_stats.get((tag, r, f), [0, 0])
+                    name = f"{rec['name']}::{fname}"
+                    cover[f"{tag}: {name}"] = f"{v} visits, {nz} populated"
+                    chk.count("member_visited" if v else "member_never_visited")
+                    if not v:
+                        broken.append(f"data member {name} of the `{tag}` targets was never reached by the before/after "
+                                      f"snapshot (no target of this run holds an object of type {rec['name']}): a failed "
+                                      f"load that changes it cannot be seen")
+                    elif not nz:
+                        broken.append(f"data member {name} of the `{tag}` targets never held anything but its zero / "
+                                      f"empty value in this run ({v} snapshots): the histories that build the targets "
+                                      f"do not populate it, a failed load that resets it cannot be seen")
+        chk.cov["members"] = cover
+        chk.cov["member_table_digest"] = table["digest"]
+        chk.cov["target_features"] = dict(sorted(features.items()))
     ndis = state["ndis"]
     chk.cov["requests"] = state["requests"]
     chk.cov["model_vs_code_disagreements"] = ndis
@@ -290,14 +644,20 @@ def run(chk, replay=None):
         chk.notes += broken
     return chk.finish(
         level="proof",
-        checker_cmd="tools/translate_loads.py > GenLoads.lean && lake build Vita.C12.Props c12_driver && "
+        checker_cmd="tools/translate_flow.py > GenFlow.lean && tools/c12_members.py > harness/c12_members_gen.h && "
+                    "lake build Vita.C12.Props c12_driver && "
                     "lake env lean <#print axioms for every theorem>",
         rule="for each valid serialization from the C11 generator: every byte prefix (all offsets up to the "
-             "tier's length bound, sampled beyond), and per token: deletion, non-numeric replacement, same-digit-"
-             "count numeric substitution (incl. all nines), sign flip; each on a target with unrelated valid "
-             "content; distinct = distinct (type, bytes)",
-        trusted=["Lean 4.33 kernel", "tools/translate_loads.py + cxx2lean.py (clang-14 JSON AST -> Stmt syntax; "
-                 "classification rules listed in its header)", "abstract statement semantics Vita/C12/CommitLast.lean",
+             "tier's length bound, sampled beyond), and per token (all tokens of short records, a sample otherwise, "
+             "structural tokens always): deletion, non-numeric word, same-digit-count digits, all zeros, all nines, "
+             "sign flip, '+' prefix, swap with the next token, donor token of the same record / of another object, "
+             "and for program streams the opcode of another valid symbol (other arity / parametric / category, same "
+             "shape, unknown); each on a target built by a populating history (a few targets per source object); "
+             "distinct = distinct (type, bytes)",
+        trusted=["Lean 4.33 kernel", "tools/translate_flow.py (+ translate_loads.py helpers, cxx2lean.py): clang-14 "
+                 "JSON AST -> data-flow Stmt syntax; classification rules listed in its header",
+                 "abstract data-flow semantics Vita/C12/Flow.lean (Exec)",
+                 "tools/c12_members.py (clang-14 JSON AST -> member table) + value rules of harness/c12_snap.h",
                  "hand-written loadInto models (Vita/C12/Model.lean) over the C11 text layer, validated by the "
                  "differential run", "harness/c12_load.cc snapshots (raw cached signature via explicit-instantiation "
                  "access), g++ 12 ASan/UBSan"])
